@@ -372,6 +372,7 @@ def c07(ctx):
 @check("C15", ["C15_"])
 def c15(ctx):
     files = directed_traces(ctx, "reconfig", 8, {"VF_FULL": "0"})
+    files += directed_traces(ctx, "api", 8)
     files += xfer_traces(ctx, ["basic", "lossy", "pr", "zwin", "il", "reorder"], 160, 4000)
     ctx.validate(files)
 
@@ -685,17 +686,13 @@ def c09(ctx):
     ctx.validate(files + hs)
 
 
-@check("C20", ["C20_"])
-def c20(ctx):
-    binp = ctx.harness(race=True)
-    out = ctx.scr.mkdir("storm")
-    nsh = 8 if ctx.quick else 16
-    ps = L.run_shards(binp, "storm", out, nsh, {"VF_N": 3 if ctx.quick else 60, "VF_SEED": ctx.seed, "VF_WATCHDOG_S": 180})
+def race_scan(ctx, ps, out, mode):
+    """A Go race detector report in a -race harness process is reported as C20_DataRace."""
     for k, p in enumerate(ps):
         if "WARNING: DATA RACE" in (p.stdout + p.stderr):
             scen = "?"
             try:
-                scen = json.load(open(os.path.join(out, "storm-%d.journal" % k))).get("scenario", "?")
+                scen = json.load(open(os.path.join(out, "%s-%d.journal" % (mode, k)))).get("scenario", "?")
             except Exception:
                 pass
             txt = (p.stdout + p.stderr)
@@ -703,6 +700,15 @@ def c20(ctx):
             where = [ln.strip() for ln in txt[i:i + 3000].splitlines() if "pion/sctp." in ln][:2]
             ctx.add_violation("C20_DataRace", scen, where or ["race detector report"])
             p.returncode = 0 if p.returncode == 66 else p.returncode
+
+
+@check("C20", ["C20_"])
+def c20(ctx):
+    binp = ctx.harness(race=True)
+    out = ctx.scr.mkdir("storm")
+    nsh = 8 if ctx.quick else 16
+    ps = L.run_shards(binp, "storm", out, nsh, {"VF_N": 3 if ctx.quick else 60, "VF_SEED": ctx.seed, "VF_WATCHDOG_S": 180})
+    race_scan(ctx, ps, out, "storm")
     crash_as_violation(ctx, ps, out, "storm", "C20_Panic")
     files = sorted(glob.glob(os.path.join(out, "storm-*.ndjson")))
     for f in files:
@@ -711,6 +717,22 @@ def c20(ctx):
                 ctx.distinct.add(("storm", json.loads(line)["label"]))
     lifecycle_design(ctx)
     ctx.validate(files)
+    # concurrent writers on ONE stream (blocking-write mode, short deadlines): WriteSeq.tla + real-time histories
+    ctx.tlc_design("WriteSeq", "MC_WriteSeq_lock.cfg", workers=4, timeout=600)
+    neg = L.run_tlc(ctx.scr, "WriteSeq", "MC_WriteSeq_nolock.cfg", workers=2, timeout=300)
+    if "GaplessInv" not in neg["invariant_violated"]:
+        raise L.MachineryError("negative control failed: WriteSeq without the write lock must violate GaplessInv\n" + neg["out"][-1500:])
+    ctx.design.append({"module": "WriteSeq", "cfg": "MC_WriteSeq_nolock.cfg (negative control: violation expected and found)", "distinct": neg["distinct"],
+                       "generated": neg["generated"], "wall_s": neg["wall_s"], "ok": True, "cmd": neg["cmd"]})
+    mw = ctx.scr.mkdir("mw")
+    ps = L.run_shards(binp, "mw-rt", mw, 4 if ctx.quick else 16, {"VF_N": 3 if ctx.quick else 12, "VF_SEED": ctx.seed})
+    race_scan(ctx, ps, mw, "mw-rt")
+    crash_as_violation(ctx, ps, mw, "mw-rt", "C20_Panic")
+    ctx.validate(sorted(glob.glob(os.path.join(mw, "mw-rt-*.ndjson"))), module="WriteSeqTrace", cfg="WriteSeqTrace.cfg")
+    ctx.distinct.add(("multi-writer-one-stream",))
+    ctx.notes.append("mw-rt: 2-4 goroutines per stream write concurrently on the same stream of a blocking-write association with 0.5-15 ms deadlines "
+                     "against a slow reader, in REAL time (a writer waiting on the stream's write mutex is not durably blocked for testing/synctest); "
+                     "only timing-independent set laws are judged (WriteSeqTrace.tla)")
     ctx.notes.append("storms: one writer per stream on 3-6 streams per side, accept/read goroutines per stream, observers calling every accessor, "
                      "re-entrant low-threshold callbacks, heartbeats, stream closes, then concurrent Shutdown/Close/Abort; free-running lossy network; "
                      "binary built with -race (a race report is reported as C20_DataRace: that is the Go race detector's verdict, not a TLA+ one)")
